@@ -273,8 +273,10 @@ def assoc_script(j, variant):
         if kind == 'echo':
             msgs.append(({0x0002: svc.VERIFICATION, 0x0100: 0x0030, 0x0110: 10 * j + k}, None, ids[0]))
         elif kind == 'store':
+            # variants 3..5: every association stores the SAME instance UIDs (different content) into one directory
+            inst = '1.2.3.%d.%d' % (j + 1, k + 1) if variant < 3 else '1.2.3.777.1'
             ds = svc.simple_ds(PatientName='A%d^%d' % (j, k), PatientID='P%d-%d' % (j, k), SOPClassUID=svc.SC_STORAGE,
-                               SOPInstanceUID='1.2.3.%d.%d' % (j + 1, k + 1),
+                               SOPInstanceUID=inst,
                                EncapsulatedDocument=patterned(40 + 90 * j, j + k))
             msgs.append(({0x0002: svc.SC_STORAGE, 0x0100: 0x0001, 0x0110: 10 * j + k, 0x0700: 0,
                           0x1000: str(ds.SOPInstanceUID)}, svc.enc_ds(ds, ts), ids[1]))
@@ -297,8 +299,9 @@ def handler_yield():
         fn()
 
 
-def make_shared_server():
+def make_shared_server(storage_dir=None):
     import pydicom
+    import pynetdicom2
     from pynetdicom2 import sopclass, statuses, dimsemessages
     log = lb.Recorder()
 
@@ -321,8 +324,11 @@ def make_shared_server():
                 handler_yield()
                 yield svc.simple_ds(PatientName='%s^%d' % (ds.PatientID, i)), statuses.C_FIND_PENDING
         return gen()
-    ae = svc.make_server({'on_receive_echo': on_echo, 'on_receive_store': on_store, 'on_receive_find': on_find},
-                         [sopclass.verification_scp, sopclass.storage_scp, sopclass.qr_find_scp], max_pdu=16384)
+    handlers = {'on_receive_echo': on_echo, 'on_receive_store': on_store, 'on_receive_find': on_find}
+    if storage_dir is not None:
+        # directory-backed storage as StorageAE does it
+        handlers['get_file'] = lambda context, command_set: pynetdicom2._get_storage_file(context, command_set, storage_dir)
+    ae = svc.make_server(handlers, [sopclass.verification_scp, sopclass.storage_scp, sopclass.qr_find_scp], max_pdu=16384)
     return ae, log
 
 
@@ -341,7 +347,10 @@ def run_acceptors(scripts, order):
     from pynetdicom2 import asceprovider
     n = len(scripts)
     baton = Baton(n, order) if n > 1 else None
-    ae, log = make_shared_server()
+    import tempfile
+    import shutil
+    tmpdir = tempfile.mkdtemp(prefix='vf_c20_')
+    ae, log = make_shared_server(tmpdir)
     tl = threading.local()
     duls = [None] * n
     errors = [None] * n
@@ -393,6 +402,7 @@ def run_acceptors(scripts, order):
                 raise HarnessError('baton-scheduled acceptors did not finish')
     finally:
         ae.server_close()
+        shutil.rmtree(tmpdir, ignore_errors=True)
     return [summarise(d) if d is not None else None for d in duls], errors, (baton.switches if baton else 0)
 
 
@@ -469,7 +479,7 @@ def run(ctx):
     if ctx.thorough:
         rounds = [(n, s * 100 + r) for n in (4, 8, 16, 32) for r in range(5)]
         parallel(ctx, shard_loopback, [{'rounds': rounds[i::10]} for i in range(10)], procs=10)
-        parallel(ctx, shard_baton, [{'n': 190} for _ in range(16)])
+        parallel(ctx, shard_baton, [{'n': 600} for _ in range(16)])
     else:
         rounds = [(8, s * 100), (8, s * 100 + 1), (8, s * 100 + 2), (4, s * 100 + 3)]
         parallel(ctx, shard_loopback, [{'rounds': [r]} for r in rounds], procs=4)
